@@ -51,17 +51,36 @@ pub fn run(tier: Tier) -> Report {
             let mut out = vec![];
             // every single gap of the focus declaration (every gap of the text for every 31st program)
             let gaps: Vec<usize> = if i % 31 == 0 { (0..=n).collect() } else { crate::checks::c04::focus_gaps(&pr, it.focus_decl) };
+            let mut single_ok: Vec<usize> = vec![];
             for g in gaps {
                 let class = COMMENT_CLASSES[(g + i) % COMMENT_CLASSES.len()];
                 let r = render(&pr.toks, Layout::Spaces, &[g], &|g| format!("{}{}", class, g));
                 evals.fetch_add(1, Ordering::Relaxed);
                 let key = owner_key(&pr, g);
                 match eval_text(&r.text) {
-                    Ok(()) => out.push((key, false, None)),
+                    Ok(()) => {
+                        single_ok.push(g);
+                        out.push((key, false, None))
+                    }
                     Err((kind, detail)) => {
                         let k = format!("comment-{}:{}", kind, key);
                         out.push((key, true, Some(Failure { key: k, case: json!({"text": r.text, "gap": g, "family": it.family}), detail })));
                     }
+                }
+            }
+            // the same comment text in every gap that keeps its comment when it is the only one:
+            // equal texts are different comments, each must survive
+            let keepers: Vec<usize> = single_ok.clone();
+            if keepers.len() >= 2 {
+                let r = render(&pr.toks, Layout::Spaces, &keepers, &|_| " same text".to_string());
+                evals.fetch_add(1, Ordering::Relaxed);
+                match eval_text(&r.text) {
+                    Ok(()) => out.push(("equal-texts".into(), false, None)),
+                    Err((kind, detail)) => out.push((
+                        "equal-texts".into(),
+                        true,
+                        Some(Failure { key: format!("comment-{}:equal-texts", kind), case: json!({"text": r.text, "family": it.family, "gaps": keepers}), detail }),
+                    )),
                 }
             }
             // all gaps at once
